@@ -398,10 +398,27 @@ def run(idx, rep, tier):
                 continue
             bad = {}
             n_ok = 0
+            # The condition of a REQUIRED structural rule may only state the structural precondition of the property (the factors are
+            # square): if it also consults annotations of the parts or the algorithm argument, structured operands for which it fails
+            # fall through to the base case (explored below with the condition false).
+            impure = set()
+            for r_ in res.rules_of(fname):
+                if r_.cond is None or not any(kind in ts for ts in r_.types[opidx:opidx + 1]):
+                    continue
+                cnode = r_.cond
+                if isinstance(cnode, ast.Name):
+                    rr = idx.resolve_expr(r_.module, cnode, r_.func)
+                    cnode = rr.val[-1].node if rr is not None and rr.kind == "funcs" else cnode
+                opname = (cnode.args.args[opidx].arg if isinstance(cnode, (ast.Lambda, ast.FunctionDef)) and len(cnode.args.args) > opidx else None)
+                reads_alg = isinstance(cnode, (ast.Lambda, ast.FunctionDef)) and any(isinstance(x, ast.Name) and x.id in [a_.arg for a_ in cnode.args.args if a_.arg != opname] for x in ast.walk(cnode))
+                reads_annot = any(isinstance(x, ast.Attribute) and x.attr in ("isa", "annotations") for x in ast.walk(cnode)) and res.cond_value(r_, [Arg(kind)] * 8) is None
+                if (fname, kind) in CONDITIONAL and (reads_alg or reads_annot):
+                    impure.add(r_)
+                    rep.note(f"{r_.role}: the condition reads " + ("the other arguments" if reads_alg else "annotations of the parts") + "; explored with the condition false as well")
             for n, full, tup in spec_tuples(fname, kind, res, idx, intr):
                 for free, (st, win, cands, matching) in res.resolve_all(fname, tup):
                     want = CONDITIONAL.get((fname, kind))
-                    if want is not None and any(v != want for v in free.values()):
+                    if want is not None and any(v != want for r__, v in free.items() if r__ not in impure):
                         continue
                     if st != "OK":
                         continue  # C04's business
